@@ -74,6 +74,48 @@ type xVec struct {
 
 const xUnset = "<unset>"
 
+// the failure classes of C12 as concrete Jet expressions over the harness globals (see xBuild)
+var errExpr = map[string]string{
+	"identifier":         "nosuchvar",
+	"field":              "gst.Nosuch",
+	"unexported":         "gst.hidden",
+	"method":             "gst.NoMethod()",
+	"nilderef":           "gnilp.Name",
+	"mapfield-ok":        "gst.Nosuch.Deeper",
+	"index-range":        "gsl[5]",
+	"index-len":          "gsl[3]",
+	"index-empty":        "gempty[0]",
+	"index-neg":          "gsl[-1]",
+	"index-str":          "gstr[7]",
+	"index-strlen":       "gstr[3]",
+	"index-kind":         `gsl["x"]`,
+	"index-nil":          "gsl[nil]",
+	"slice-bound":        "gsl[1:9]",
+	"slice-kind":         `gsl["a":2]`,
+	"operand-mul":        `gstr * 2`,
+	"operand-add":        `gst + 1`,
+	"operand-neg":        `-gstr`,
+	"operand-cmp":        `gstr < 1`,
+	"calltarget":         "gstr(1)",
+	"calltarget-nil":     "gnil(1)",
+	"argcount":           `lower("a", "b")`,
+	"argcount-jetfunc":   `len("a", "b")`,
+	"argtype":            `repeat("a", "b")`,
+	"arg-invalid":        `lower(gnil)`,
+	"underscore":         `lower(_)`,
+	"underscore-jetfunc": `len(_)`,
+	"func":               "fail()",
+	"len-kind":           "len(5)",
+	"ints-range":         "ints(3, 1)",
+	"pipe-nonfunc":       `"a" | gstr`,
+	"safewriter-notlast": `"a" | raw | lower`,
+}
+
+type gStruct struct {
+	Name   string
+	hidden int
+}
+
 // ---- concretisation: abstract program -> Jet source --------------------------------------
 
 type concretizer struct {
@@ -111,6 +153,8 @@ func (c *concretizer) expr(e xExpr) string {
 		return "."
 	case "fail":
 		return "fail()"
+	case "err":
+		return errExpr[e.A]
 	case "isset":
 		return "isset(" + e.A + ")"
 	case "list":
@@ -403,7 +447,9 @@ func atomValue(v string) interface{} {
 	return v
 }
 
-var linefulClasses = map[string]bool{"identifier": true, "assign": true, "range": true, "block": true, "template": true}
+// classes whose error is raised by a called Go function (no file:line by contract)
+var calleeClasses = map[string]bool{"func": true, "template-exec": true, "yieldarg": true, "len-kind": true, "ints-range": true,
+	"argcount-jetfunc": true, "underscore-jetfunc": true}
 
 type xObs struct {
 	Out   string `json:"out"`
@@ -456,6 +502,12 @@ func xBuild(c *xCase, esc jet.SafeWriter, useEsc bool) (*xWorld, error) {
 	}
 	set := jet.NewSet(loader, opts...)
 	set.AddGlobal("fail", func() string { panic(errors.New("injected failure")) })
+	set.AddGlobal("gst", gStruct{Name: "n"})
+	set.AddGlobal("gnilp", (*gStruct)(nil))
+	set.AddGlobal("gsl", []string{"a", "b", "c"})
+	set.AddGlobal("gstr", "str")
+	set.AddGlobal("gempty", []string{})
+	set.AddGlobal("gnil", nil)
 	for n, v := range c.Globals {
 		if v != xUnset {
 			set.AddGlobal(n, atomValue(v))
@@ -565,7 +617,7 @@ func xCompare(w *xWorld, exp xResult, o xObs, esc func(string) string) (bool, st
 	if exp.Err.On != (o.Err != "") {
 		return false, "error", fmt.Sprintf("error %q, spec error=%v class=%s at %s", o.Err, exp.Err.On, exp.Err.Class, exp.Err.ID)
 	}
-	if exp.Err.On && linefulClasses[exp.Err.Class] {
+	if exp.Err.On && !calleeClasses[exp.Err.Class] {
 		loc := w.where[exp.Err.ID]
 		needle := fmt.Sprintf("(%q:%s)", loc[0], loc[1])
 		if !strings.Contains(o.Err, needle) {
